@@ -39,6 +39,8 @@ type scenario struct {
 	cacheLoss bool
 	// legacyCache: the base entries are only in a legacy 128-bit cache table.
 	legacyCache bool
+	// create: actor 0 creates the log first (base must be -1: empty stores).
+	create bool
 }
 
 type actorSpec struct {
@@ -48,6 +50,8 @@ type actorSpec struct {
 	// (it may run while another instance is mid-round); otherwise it loads from
 	// the base state before the scenario starts.
 	loadInScenario bool
+	// create: the actor first runs CreateLog (inside the explored schedule).
+	create bool
 }
 
 type exec struct {
@@ -162,7 +166,19 @@ type pend struct {
 func (a *actor) run() {
 	x := a.x
 	var in *instance
-	if a.spec.loadInScenario {
+	if a.spec.create {
+		a.restarts++
+		c := x.w.newInstance(a.name+"-create", a.restarts, nil, false)
+		a.cur = c
+		err := CreateLog(c.ctx, c.cfg)
+		x.logf("%s: CreateLog: %v", a.name, err)
+		c.crash()
+		if err != nil {
+			// creation refused or failed: this process exits
+			return
+		}
+	}
+	if a.spec.loadInScenario || a.spec.create {
 		if in = a.boot(false); in == nil {
 			return
 		}
@@ -267,6 +283,9 @@ func (x *exec) submitter(id int, specs []string) {
 // C03 recoverability, C07 leaf/admission correspondence).
 func (x *exec) finalChecks() {
 	w := x.w
+	w.clockMu.Lock()
+	w.frozen = false
+	w.clockMu.Unlock()
 	var rows []cacheRow
 	for _, a := range x.act {
 		if a.cur != nil && !a.cur.crashed.Load() {
@@ -391,7 +410,7 @@ func runExec(t *testing.T, sc *scenario, prefix []int) *verifmc.ExecResult {
 		w := newWorld(s, base, sc.opt)
 		w.mon.checkC04 = sc.checkC04
 		x := &exec{sc: sc, w: w, s: s, acked: map[string]bool{}}
-		specs := append([]actorSpec{{name: "L", rounds: sc.rounds}}, sc.actors...)
+		specs := append([]actorSpec{{name: "L", rounds: sc.rounds, create: sc.create}}, sc.actors...)
 		for i, sp := range specs {
 			a := &actor{x: x, id: i, name: sp.name, spec: sp}
 			if sc.cacheFromBase && !sc.legacyCache {
@@ -421,7 +440,7 @@ func runExec(t *testing.T, sc *scenario, prefix []int) *verifmc.ExecResult {
 		// outside the explored schedule (Points are no-ops for quiet handles).
 		w.steadyClock = true
 		for _, a := range x.act {
-			if !a.spec.loadInScenario {
+			if !a.spec.loadInScenario && !a.spec.create {
 				if a.boot(true) == nil {
 					panic(verifmc.EngineError{Msg: "initial LoadLog of " + a.name + " failed"})
 				}
